@@ -142,9 +142,12 @@ def init_permutation(ctx, rule='R2.init-permutation'):
             idx = a.args[1]
             if order is None:
                 order = idx
-            ok = idx == order and 'argsort(frequency)' in idx
+            # exactly the fancy index argsort(frequency): a fancy index COPIES; a conditional `slice(None)` shortcut would make the
+            # object share its arrays with the caller (in-place updates of one share would then leak into another array)
+            ok = idx == order and isinstance(idx, str) and (idx == 'argsort(frequency)' or idx.startswith('argsort(frequency,'))
         ctx.check(rule, site, ok, f'{init.qual}|_{p}',
-                  f'self._{p} is not {p}[argsort(frequency)] with the one common permutation',
+                  f'self._{p} is not {p}[argsort(frequency)] with the one common permutation (a fancy index, which also copies the '
+                  'caller\'s array)',
                   f'self._{p} = {vkey(v)}')
     ctx.need(rule, 16, '16 per-channel constructor parameters')
     return params
